@@ -11,12 +11,15 @@ import (
 func itoa(i int) string { return strconv.Itoa(i) }
 
 // genAnyDocProject draws a generated document (valid or with faults) as a project.
-func genAnyDocProject(t *rapid.T) vlib.Project {
-	return vlib.Single(vlib.GenMacroDoc(t))
-}
+func genAnyDocProject(t *rapid.T) vlib.Project { return genAnyDocProjectImpl(t) }
+
+var genAnyDocProjectImpl = func(t *rapid.T) vlib.Project { return vlib.Single(vlib.GenMacroDoc(t)) }
 
 // c19Docs is the document part of C19 (filled in with the document model).
 var c19Docs = func(h *vlib.H) {}
 
 // c08Docs is the document part of C08 (filled in with the document model).
 var c08Docs = func(h *vlib.H) {}
+
+// injectAnyFault puts one fault into a valid document (filled in with C11).
+var injectAnyFault = func(t *rapid.T, doc *vlib.Doc) *vlib.Doc { return doc }
